@@ -506,3 +506,24 @@ Proof.
   split; [|exact Pn]. rewrite Pr. assert (ensure_running_tops_up_then_starts_manager = true) as -> by reflexivity.
   rewrite app_length, repeat_length. lia.
 Qed.
+
+(* idle exits are invisible to the size of a pool that has work waiting: when the manager reaps a clean exit while a future is
+   unresolved (and the executor is still referenced) it tops the pool back up to max_workers *)
+Theorem reap_refills_when_work_waits p i :
+  in_loop p = true -> nth_error (procs p) i = Some WExited -> user p = true -> pending p <> 0 -> length (procs p) <= maxw p ->
+  length (procs (step p (Reap i))) = maxw p /\ broken (step p (Reap i)) = broken p /\ pending (step p (Reap i)) = pending p.
+Proof.
+  intros L N U P Le. unfold step. rewrite N, L, U.
+  assert (E : Nat.eqb (pending p) 0 = false) by (apply Nat.eqb_neq; exact P). rewrite E.
+  assert (clean_exit_reads_counters_after_the_pop_and_respawns_when_work_waits = true) as -> by reflexivity.
+  simpl. rewrite app_length, repeat_length. pose proof (del_nth_length (procs p) i). split; [lia | auto].
+Qed.
+Theorem idle_exit_is_not_a_break p i : broken (step p (IdleExit i)) = broken p /\ pending (step p (IdleExit i)) = pending p.
+Proof. unfold step. destruct (nth_error (procs p) i) as [[| |]|]; simpl; auto. Qed.
+
+(* submit() registers the job before it tops the pool up, so an idle exit that happens in between is seen by one of the two *)
+Fixpoint index_of (x : sop) (l : list sop) : nat :=
+  match l with [] => 0 | y :: t => if match x, y with SAddPending, SAddPending | SEnsureRunning, SEnsureRunning => true | _, _ => false end
+                                   then 0 else S (index_of x t) end.
+Theorem submit_registers_before_topping_up : index_of SAddPending submit_prog < index_of SEnsureRunning submit_prog.
+Proof. vm_compute. repeat constructor. Qed.
